@@ -159,6 +159,20 @@ Section ECIES.
     | XCHACHA20_POLY1305 => Err
     end.
 
+  (* the DEM wire format as a total function (no size check): what dem_encrypt
+     returns when it succeeds, and exactly what dem_decrypt accepts *)
+  Definition dem_frame (d : dem) (key iv pt : bytes) : bytes :=
+    match d with
+    | AES128_GCM | AES256_GCM => iv ++ gcm_seal key iv [] pt
+    | AES256_SIV => siv_seal key [] pt
+    | AES128_CTR_HMAC_SHA256 | AES256_CTR_HMAC_SHA256 =>
+        let ka := firstn (dem_aes_key_size d) key in
+        let kh := skipn (dem_aes_key_size d) key in
+        let ct := iv ++ aes_ctr ka iv pt in
+        ct ++ firstn (dem_tag_size d) (hmac_sha256 kh ([] ++ ct ++ aad_size_in_bits []))
+    | XCHACHA20_POLY1305 => []
+    end.
+
   Definition dem_decrypt (d : dem) (key ct : bytes) : outcome bytes :=
     if negb (Nat.eqb (length key) (dem_key_size d)) then Err else
     match d with
